@@ -120,7 +120,8 @@ def _setish(n):
     return None
 
 
-def scan_sites(root="/repo/doctrans"):
+def scan_sites(root=None):
+    root = root or os.path.join(os.environ.get("VERIF_REPO") or "/repo", "doctrans")
     """[(file, line, kind, source)] for every `for` / comprehension / iterating call whose iterable is set-valued"""
     out = []
     for f in sorted(glob.glob(os.path.join(root, "*.py"))):
